@@ -11,6 +11,7 @@ import (
 	"fmt"
 	"io"
 	"net/http"
+	"reflect"
 	"runtime"
 	"strings"
 	"testing"
@@ -829,4 +830,96 @@ func vfMutateWire(r *verifkit.Rand, b []byte) []byte {
 		}
 	}
 	return b
+}
+
+// TestVerifC13History: what the examiner says about a response does not depend on the responses it saw
+// before - in particular not on an earlier response it had to give up on (a body labelled with an encoding
+// it is not in, a body cut inside its encoding's header, an encoding it does not know).
+func TestVerifC13History(t *testing.T) {
+	rep := verifkit.Begin("C13", "history", "unary Connect error responses examined one after another by the real capture + trace + examineWireDetails chain on one goroutine (GOMAXPROCS 1 for the duration): a well-formed body, a gzip body, a body with an unknown key - each first in isolation, then again right after a troublesome response (plain JSON labelled Content-Encoding: gzip; gzip data cut after 5 / 12 bytes; unknown encoding; empty body labelled gzip); oracle: the feedback for a response is the same with and without the predecessor (none for the well-formed ones); distinct = (predecessor, response kind, error)")
+	defer rep.Write()
+	defer runtime.GOMAXPROCS(runtime.GOMAXPROCS(1))
+	rng := verifkit.Stream("c13history")
+	hdr := func(ct, enc string) http.Header {
+		h := http.Header{"Content-Type": {ct}}
+		if enc != "" {
+			h.Set("Content-Encoding", enc)
+		}
+		return h
+	}
+	strip := func(fb []string) []string {
+		var out []string
+		for _, l := range fb {
+			if !strings.HasPrefix(l, "(transport variant") {
+				out = append(out, l)
+			}
+		}
+		return out
+	}
+	n := verifkit.Scale(60, 1500)
+	for i := 0; i < n; i++ {
+		e := vfGenWireErr(rng, false)
+		js, _ := json.Marshal(e.connectJSON(false))
+		gz, _ := verifkit.IndepCompress("gzip", js)
+		withKey := vfCopyMap(e.connectJSON(false))
+		withKey["unknown_key"] = 1
+		badJS, _ := json.Marshal(withKey)
+		subjects := map[string]*vfFakeRT{
+			"well-formed":      {status: 400 + e.Code, header: hdr("application/json", ""), body: js},
+			"well-formed-gzip": {status: 500, header: hdr("application/json", "gzip"), body: gz},
+			"unknown-key":      {status: 400 + e.Code, header: hdr("application/json", ""), body: badJS},
+		}
+		cut := func(k int) []byte {
+			if k > len(gz) {
+				k = len(gz)
+			}
+			return gz[:k]
+		}
+		predecessors := map[string]*vfFakeRT{
+			"plain-json-labelled-gzip": {status: 500, header: hdr("application/json", "gzip"), body: js},
+			"gzip-cut-after-5":         {status: 500, header: hdr("application/json", "gzip"), body: cut(5)},
+			"gzip-cut-after-12":        {status: 500, header: hdr("application/json", "gzip"), body: cut(12)},
+			"unknown-encoding":         {status: 500, header: hdr("application/json", "x-verif"), body: js},
+			"empty-labelled-gzip":      {status: 500, header: hdr("application/json", "gzip"), body: nil},
+		}
+		examine := func(f *vfFakeRT) ([]string, *verifkit.Panic) {
+			req, _ := http.NewRequest("POST", "http://example.test/connectrpc.conformance.v1.ConformanceService/Unary", strings.NewReader("x"))
+			req.Header.Set("X-Test-Case-Name", "Wire/History")
+			var fb []string
+			pn := verifkit.Catch(func() { _, _, fb, _, _ = referenceclient.VfExamineExchange(f, req) })
+			return strip(fb), pn
+		}
+		for _, sk := range verifkit.SortedKeys(subjects) {
+			alone, pn := examine(subjects[sk])
+			if pn != nil {
+				rep.Violation("wire/panic/"+pn.Site, pn.Value, sk)
+				continue
+			}
+			if sk != "unknown-key" && len(alone) > 0 {
+				continue // (judged by the well-formed monitor)
+			}
+			for _, pk := range verifkit.SortedKeys(predecessors) {
+				rep.Eval(1)
+				rep.DistinctKey(pk, sk, e.Code, e.Message)
+				if _, pn := examine(predecessors[pk]); pn != nil {
+					rep.Violation("wire/panic/"+pn.Site, pn.Value, pk)
+					continue
+				}
+				after, pn := examine(subjects[sk])
+				if pn != nil {
+					rep.Violation("wire/panic/"+pn.Site, pn.Value, sk)
+					continue
+				}
+				w := map[string]any{"predecessor": pk, "response": sk, "body": verifkit.Trunc(string(subjects[sk].body), 300), "feedback_alone": alone, "feedback_after_predecessor": after}
+				if !reflect.DeepEqual(alone, after) {
+					rep.Violation("wire/history-dependent/"+sk+"/after-"+pk, fmt.Sprintf("a %s response gets feedback %q on its own and %q when it is examined right after a %s response", sk, alone, after, pk), w)
+				} else {
+					rep.Count("history_independent:"+sk, 1)
+				}
+			}
+		}
+	}
+	rep.Sample(map[string]any{"history": "plain JSON labelled gzip, then a well-formed error body", "expect": "no feedback for the second"})
+	rep.RequireMin("history_independent:well-formed", 100)
+	rep.RequireMin("history_independent:unknown-key", 100)
 }
